@@ -281,3 +281,97 @@ def gen_parse_sites(read):
         "",
     ]
     return "ParseSites.v", "\n".join(lines)
+
+
+# ---------------------------------------------------------------------------------------------------------------
+# C01 (2): what the error constructors attach, what ErrorKind::as_str returns -- for Errors/RenderModel.v
+def gen_error_ctx(read):
+    """Gen/ErrorCtx.v:
+      gen_kind_has_msg : (ErrorKind variant, as_str is Some)              from error/kind.rs `fn as_str`
+      gen_ctor_ctx     : (constructor fn, ErrorKind it creates, has a message (for_app), ContextKinds attached by the
+                          unconditional `extend_context_unchecked([...])` in order, ContextKinds attached by conditional
+                          `insert_context_unchecked(...)` calls in order)  from error/mod.rs
+      gen_context_kinds: the variants of enum ContextKind in order          from error/context.rs
+      gen_format_unwraps: number of unwrap()/expect( in error/format.rs per fn (RenderModel has one visible site)"""
+    kind_rs = blank_keep_strings(read("clap_builder/src/error/kind.rs"))
+    m = re.search(r"pub fn as_str\(self\)\s*->\s*Option<&'static str>\s*\{\s*match self \{(.*?)\n        \}\n", kind_rs, re.S)
+    if not m:
+        raise SystemExit("parse_sites.py: ErrorKind::as_str not found / changed shape")
+    has_msg = []
+    for arm in re.finditer(r"Self::(\w+)\s*=>\s*(\{?\s*)(Some\(|None)", m.group(1)):
+        has_msg.append((arm.group(1), arm.group(3) != "None"))
+    if len(has_msg) < 10:
+        raise SystemExit("parse_sites.py: too few arms in ErrorKind::as_str")
+    ctx_rs = blank_keep_strings(read("clap_builder/src/error/context.rs"))
+    m = re.search(r"pub enum ContextKind \{(.*?)\n\}", ctx_rs, re.S)
+    if not m:
+        raise SystemExit("parse_sites.py: enum ContextKind not found")
+    ckinds = re.findall(r"^\s*(\w+),\s*$", m.group(1), re.M)
+    mod_rs = blank_keep_strings(read("clap_builder/src/error/mod.rs"))
+    fns = functions(mod_rs)
+    helpers = {"display_help": "DisplayHelp", "display_help_error": "DisplayHelpOnMissingArgumentOrSubcommand",
+               "display_version": "DisplayVersion"}
+    ctors = []
+    for q, bare, b, e in fns:
+        body = mod_rs[b:e]
+        if not q.startswith("Error::"):
+            continue
+        mk = re.search(r"Self::new\(ErrorKind::(\w+)\)", body)
+        fa = re.search(r"Self::for_app\(\s*ErrorKind::(\w+)", body)
+        deleg = re.search(r"^\s*\{\s*Self::(\w+)\(cmd,", body)
+        if bare in ("new", "raw", "for_app", "format", "with_cmd", "apply"):
+            continue
+        if fa:
+            ctors.append((bare, fa.group(1), True, [], []))
+        elif mk and "ContextKind::" in body or (mk and bare in ("invalid_utf8",)):
+            ext = re.search(r"extend_context_unchecked\(\[(.*?)\]\);", body, re.S)
+            mand = re.findall(r"ContextKind::(\w+)", ext.group(1)) if ext else []
+            rest = body[:ext.start()] + body[ext.end():] if ext else body
+            cond = re.findall(r"insert_context_unchecked\(\s*ContextKind::(\w+)", rest)
+            ctors.append((bare, mk.group(1), False, mand, cond))
+        elif deleg and bare == "empty_value":
+            ctors.append((bare, "=" + deleg.group(1), False, [], []))
+    names = [c[0] for c in ctors]
+    for need in ("argument_conflict", "subcommand_conflict", "empty_value", "no_equals", "invalid_value", "invalid_subcommand",
+                 "unrecognized_subcommand", "missing_required_argument", "missing_subcommand", "invalid_utf8",
+                 "too_many_values", "too_few_values", "value_validation", "wrong_number_of_values", "unknown_argument",
+                 "unnecessary_double_dash", "display_help", "display_help_error", "display_version"):
+        if need not in names:
+            raise SystemExit("parse_sites.py: error constructor %s not found in error/mod.rs" % need)
+    fmt_rs = drop_test_mods(blank(read("clap_builder/src/error/format.rs")))
+    ffns = functions(fmt_rs)
+    fsites = [(f, k, n) for (f, k, n) in sites_of(fmt_rs, ffns) if k in ("unwrap", "expect", "unreachable!", "panic!", "index")]
+
+    def sl(l):
+        return "[" + "; ".join('"%s"' % x for x in l) + "]"
+    lines = [
+        "(* GENERATED by translators/parse_sites.py from clap_builder/src/error/{kind,context,mod,format}.rs -- do not edit *)",
+        "From Coq Require Import List NArith String.",
+        "Import ListNotations.",
+        "Open Scope N_scope.",
+        "Open Scope string_scope.",
+        "(** ErrorKind::as_str: (variant, returns Some) *)",
+        "Definition gen_kind_has_msg : list (string * bool) := [",
+        ";\n".join('  ("%s", %s)' % (k, "true" if v else "false") for k, v in has_msg),
+        "].",
+        "(** enum ContextKind, in order *)",
+        "Definition gen_context_kinds : list string := " + sl(ckinds) + ".",
+        "(** the pub(crate) constructors of error/mod.rs: (fn, ErrorKind created (\"=f\": delegates to f), sets a message through",
+        "    for_app, kinds of the unconditional extend_context_unchecked([..]) in order, kinds of the conditional",
+        "    insert_context_unchecked(..) calls in source order) *)",
+        "Definition gen_ctor_ctx : list (string * string * bool * list string * list string) := [",
+        ";\n".join('  ("%s", "%s", %s, %s, %s)' % (n, k, "true" if fm else "false", sl(a), sl(b)) for n, k, fm, a, b in ctors),
+        "].",
+        "(** unwrap()/expect(/unreachable!/panic!/index sites of error/format.rs: (fn, kind, ordinal) *)",
+        "Definition gen_format_sites : list (string * string * N) := [",
+        ";\n".join('  ("%s", "%s", %d)' % r for r in fsites),
+        "].",
+        "",
+    ]
+    return "ErrorCtx.v", "\n".join(lines)
+
+
+def blank_keep_strings(src):
+    """comments removed, strings kept (the tables above do not look inside strings, but `"` must stay balanced)"""
+    out = re.sub(r"//[^\n]*", "", src)
+    return out
